@@ -26,7 +26,7 @@ for (P, n), r in sorted(res.items()):
     for f in ("patch.diff", "demo.sh"):
         shutil.copy(os.path.join(src, f), os.path.join(dst, f))
     meta = json.load(open(os.path.join(src, "meta.json")))
-    meta["round"] = 2
+    meta["round"] = int(os.environ.get("SEED_ROUND", "2"))
     ok = r["confirm"] and "clean rc=0 patched rc=1" in r["confirm"] and "other failures: 0" in r["confirm"]
     meta["confirmed"] = ("scratch worktree at /repo HEAD: patch applies, workspace builds, baseline tests pass, demo.sh exits 0 without the patch and 1 with it (tools/verify_seeded.sh): " if ok else "NOT CONFIRMED: ") + str(r["confirm"])
     meta["ran"] = [f"./check {c} quick -> {'VIOLATION' + (' (no-failing-input-found)' if nf else '') if v else 'exit 0 (missed)'} {t}" for c, v, nf, t in r["ran"]]
